@@ -71,6 +71,14 @@ class CrudProfile(StoreProfile):
             alpha["D1"] = anc[-1]
         if len(anc) > 2:
             alpha["D2"] = anc[-3]
+        if anc:
+            # a sibling of D1 whose name differs from D1's in the LAST character only (v001 / v002, bob / boc)
+            d1 = anc[-1]
+            for ch in "2b0a1":
+                d3 = d1[:-1] + ch
+                if d3 != d1 and m.natural_type(d3) == m.natural_type(d1):
+                    alpha["D3"] = d3
+                    break
         # same branch top, another value at the first free-form level: creating it creates NEW ancestors below
         # directories whose listing has been asked (and found non-empty) before
         for i, k in enumerate(m.by_name[t].keys):
@@ -115,8 +123,17 @@ class CrudProfile(StoreProfile):
                 q.append({"op": "write", "cfg": cfg0, "sid": alpha[nme], "how": rng.choice(["set", "update"]),
                           "data": {"k%d" % j: j, "comment": "w%d" % j}})
             q.append({"op": "restart"})
-        if q:
-            return q.pop(0)
+        if i == 1 and not q and rng.random() < 0.06:
+            # a write whose serialised sidecar lands exactly on / next to a block boundary
+            cfg0 = m.default_config
+            q += [{"op": "create", "cfg": cfg0, "sid": alpha["F1"], "data": None}] + self.boundary_episode(run, cfg0, alpha["F1"])
+        while q:
+            st = q.pop(0)
+            if st["op"] == "boundary":
+                st = self.boundary_followup(run, st)
+                if st is None:
+                    continue
+            return st
         names = sorted(alpha)
         r = rng.random()
         cfg = rng.choice(m.configs) if rng.random() < 0.3 else m.default_config
@@ -159,6 +176,11 @@ class CrudProfile(StoreProfile):
             from .base import do_write
             exists, obs = do_write(run, step["cfg"], step["sid"], step["how"], step["data"], obj=bool(step.get("obj")))
             outcome = "w" if exists else "missing"
+            if step.get("measure"):
+                mp = run.m.path_of_sid(step["sid"], step["cfg"])
+                run.scratch["measured"] = run.do(X.call("getsize", X.call("data_path", mp))) if mp else -1
+                if step.get("target") and run.scratch["measured"] == step["target"]:
+                    run.probes["sized_write_landed_on_target"] += 1     # (a probe of the harness' aim, not an oracle)
             if exists:
                 run.check(obs is True, "C15.write_fails", {"sid": step["sid"], "how": step["how"], "got": obs})
             else:
